@@ -227,9 +227,13 @@ def _least_common_subsumers(
 
 
 def _most_informative_lcs(synset1: Synset, synset2: Synset, ic: Freq) -> Synset:
-    pos_ic = ic[ADJ if synset1.pos == ADJ_SAT else synset1.pos]
-    lcs = _least_common_subsumers(synset1, synset2, False)
-    return max(lcs, key=lambda ss: pos_ic[ss.id])
+    # a higher weight means less information, and with several paths to
+    # the root the most informative common hypernym need not be among
+    # the deepest ones, so look at all of them
+    subsumers = synset1.common_hypernyms(synset2)
+    if not subsumers:
+        raise wn.Error(f'no common hypernyms for {synset1!r} and {synset2!r}')
+    return max(subsumers, key=lambda ss: information_content(ss, ic))
 
 
 def _check_if_pos_compatible(pos1: str, pos2: str) -> None:
